@@ -6,6 +6,7 @@
 extern "C" {
 #include "musig_vectors.h"
 }
+#include "adaptor_vectors.inc"   // spec vectors of the ECDSA adaptor module (pinned tree)
 #include "model_vectors.inc"   // generated once from the pinned library, see tools/genvectors.cc
 
 namespace ref {
@@ -51,6 +52,43 @@ int selftest(std::string *why) {
           ST(k.ok, "keyagg valid");
           uint8_t x[32]; xbytes(k.Q, x);
           ST(memcmp(x, v.valid_case[c].expected, 32) == 0, "keyagg expected");
+      } }
+    // ECDSA adaptor signatures: the module's spec vectors (two valid, one with a wrong proof); a crafted one verifies for the
+    // key it was built for, and the model's prover and verifier agree
+    for (const auto &v : ADAPTOR_VECTORS) {
+        Bytes a = unhex(v.adaptor_sig), m = unhex(v.msg), pk = unhex(v.pubkey), ek = unhex(v.enckey);
+        Pt X, Y;
+        ST(a.size() == 162 && parse_pubkey(pk.data(), 33, &X) && parse_pubkey(ek.data(), 33, &Y), "adaptor vector parses");
+        ST(adaptor_verify(a.data(), X, m.data(), Y) == (v.expect_verify != 0), "adaptor verify spec vector");
+        if (v.expect_verify) { a[70] ^= 1; ST(!adaptor_verify(a.data(), X, m.data(), Y), "adaptor verify rejects altered s'"); }
+    }
+    { U256 x(0x1234567), y(0x7654321), k(0xabcdef1), dn(0x13579b);
+      Pt X = mulG(x), Y = mulG(y);
+      uint8_t msg[32]; sha256((const uint8_t *)"adaptor", 7, msg);
+      U256 r = FN.reduce(mul(k, Y).x);
+      uint8_t sp[32]; FN.mul(FN.inv(k), FN.add(scalar_from_be_reduce(msg), FN.mul(r, x))).to_be(sp);
+      uint8_t a[162]; adaptor_craft(k, Y, sp, dn, a);
+      ST(adaptor_verify(a, X, msg, Y), "crafted adaptor signature verifies");
+      ST(!adaptor_verify(a, Y, msg, Y), "crafted adaptor signature fails for another key");
+    }
+    // sign-to-contract: the module's two fixed vectors (key 0x55.., message 0x88..): the opening is the RFC 6979 nonce point for
+    // extra data H_"s2c/ecdsa/data"(datum); the commitment check accepts the resulting r for this datum and no other
+    { static const char *S2C[2][2] = {
+          {"1bf6fb42f41eb876c4d7aa0d67242b00baab99dc2084493e4e63277fa1f77f22", "03f030def3188c0f56fcea87435b307643f45dafe22cbc82fd56034fae97417d3a"},
+          {"35199a8fbf84ad6ef69a184c1b19285befbe06e60b6264e6d373893f6855e24a", "03901717ce7c7484a2ce1b7dc7403b14e0354971393ec092a7f3e0c8e4e2d2639d"}};
+      uint8_t key[32], msg[32]; memset(key, 0x55, 32); memset(msg, 0x88, 32);
+      for (int c = 0; c < 2; c++) {
+          Bytes d = unhex(S2C[c][0]), want = unhex(S2C[c][1]);
+          uint8_t nd[32], k0[32], o33[33];
+          s2c_host_commit(d.data(), nd);
+          rfc6979_nonce(key, msg, nd, nullptr, 0, k0);
+          Pt R0 = mulG(U256::from_be(k0)); ser33(R0, o33);
+          ST(memcmp(o33, want.data(), 33) == 0, "s2c opening vector");
+          // r of the tweaked nonce
+          uint8_t t32[32]; Sha256 h = tagged("s2c/ecdsa/point"); h.write(o33, 33); h.write(d.data(), 32); h.finish(t32);
+          Pt R = add(R0, mulG(scalar_from_be_reduce(t32))); uint8_t x[32], r32[32]; xbytes(R, x); scalar_from_be_reduce(x).to_be(r32);
+          ST(s2c_verify_commit(r32, d.data(), o33), "s2c verify_commit accepts");
+          d[20] ^= 4; ST(!s2c_verify_commit(r32, d.data(), o33), "s2c verify_commit rejects another datum");
       } }
     // BIP-327: NonceGen (the two vectors with 32-byte message and extra input, the only lengths the library API accepts)
     { const auto &v = musig_nonce_gen_vector;
